@@ -367,6 +367,10 @@ Definition ic_write (cfg : config) (sk : bool) (b : bytes) (m : mws) : mws :=
   | Some _ => m
   | None =>
     let m1 := if i_wrote (m_ic m) then m else ic_write_header cfg sk 200 m in
+    (* the implicit WriteHeader(200) may have run the response-headers phase: nothing passes then *)
+    match t_intr (m_tx m1) with
+    | Some _ => m1
+    | None =>
     if buffering cfg (m_tx m1) && negb (i_released (m_ic m1)) then
       let '(t', it, n) := tx_write_resp cfg b (m_tx m1) in
       let m2 := mw_set_tx t' m1 in
@@ -381,6 +385,7 @@ Definition ic_write (cfg : config) (sk : bool) (b : bytes) (m : mws) : mws :=
     else
       let m2 := ic_flush_header sk m1 in
       mw_set_ds (ds_write sk b (m_ds m2)) m2
+    end
   end.
 
 Definition ic_flush (cfg : config) (sk : bool) (m : mws) : mws :=
